@@ -38,7 +38,14 @@ type Opts struct {
 // Rand is splitmix64; every random choice of a run derives from one state
 type Rand struct{ s uint64 }
 
-func NewRand(seed uint64) *Rand { return &Rand{s: seed*0x9E3779B97F4A7C15 + 0x1234567} }
+// NewRand mixes the seed through the splitmix64 finaliser so that consecutive seeds give unrelated streams
+func NewRand(seed uint64) *Rand {
+	z := seed + 0x632BE59BD9B4E019
+	z = (z ^ (z >> 30)) * 0xBF58476D1CE4E5B9
+	z = (z ^ (z >> 27)) * 0x94D049BB133111EB
+	z ^= z >> 31
+	return &Rand{s: z ^ 0x1234567}
+}
 func (r *Rand) U64() uint64 {
 	r.s += 0x9E3779B97F4A7C15
 	z := r.s
@@ -148,6 +155,12 @@ func Main(genInput func(r *Rand, i int, o Opts) any, run func(input json.RawMess
 // CoqString prints a Coq string literal (only printable ASCII is allowed; use CoqBytes otherwise)
 func CoqString(s string) string {
 	return "\"" + strings.ReplaceAll(s, "\"", "\"\"") + "\"%string"
+}
+
+// CoqStr prints a Coq string literal WITHOUT the %string delimiter (much faster to parse in bulk;
+// needs `Open Scope string_scope.` in the case prelude)
+func CoqStr(s string) string {
+	return "\"" + strings.ReplaceAll(s, "\"", "\"\"") + "\""
 }
 
 // IsPlain reports whether s can be written as a Coq string literal
